@@ -389,13 +389,17 @@ func (w *Workceptor) scanForUnits() {
 
 func (w *Workceptor) findUnit(unitID string) (WorkUnit, error) {
 	w.activeUnitsLock.RLock()
-	defer w.activeUnitsLock.RUnlock()
 	unit, ok := w.activeUnits[unitID]
+	w.activeUnitsLock.RUnlock()
 	if ok {
 		return unit, nil
 	}
-	// if not in active units, rescan work unit dir and recheck
+	// if not in active units, rescan work unit dir and recheck.
+	// scanForUnit takes activeUnitsLock itself (for writing when it finds a unit
+	// on disk), so it must be called without the lock held.
 	w.scanForUnit(unitID)
+	w.activeUnitsLock.RLock()
+	defer w.activeUnitsLock.RUnlock()
 	unit, ok = w.activeUnits[unitID]
 	if !ok {
 		return nil, fmt.Errorf("unknown work unit %s", unitID)
